@@ -12,8 +12,12 @@ package driver
 // later reads and reports have happened. Nothing is judged here.
 //
 //   init                                   -> ok                      (device created through getDevice, connected, configured)
-//   read <res>=<hex> [<res>=<hex> ...]     -> ok <k>:<json hex>:<bin hex> ... | err <text hex>
-//        one HandleReadCommands call with one request per item (res: cfg|cap|ro|as), the Reader answering the k-th with <hex>
+//   read <res>=<hex> [<res>=<hex> ...]     -> ok <k>:<json hex>:<bin hex> ... n=<requests> | err <text hex> n=<requests>
+//        one HandleReadCommands call with one request per item (res: cfg|cap|ro|as), the Reader answering the k-th with <hex>.
+//        An item may script SEVERAL attempts, `<res>=<a1>/<a2>/...`: the Reader's answers to the 1st, 2nd, ... request of that type
+//        during the call; an attempt is <hex> (the normal reply type), E<hex> (an ERROR_MESSAGE with that payload), X (the Reader
+//        drops the connection instead of answering) or P<hex> (half of the reply frame, then the connection is dropped).
+//        n = how many requests of the FIRST item's type the Reader received during the call (the attempts the service really made).
 //   report <msgtype> <hex>                 -> ok <k>:<json hex>:<bin hex> | none | wrong <resource name>
 //        the Reader sends the unsolicited message; the reading is the one that arrives on the SDK's async channel
 //   recheck                                -> ok <json hex>:<bin hex> ...   (all readings so far, in the order they were handed out)
@@ -50,11 +54,17 @@ import (
 
 var c01StatusOK = []byte{0x01, 0x1F, 0x00, 0x08, 0x00, 0x00, 0x00, 0x00}
 
+type c01Reply struct {
+	kind    byte // 0 reply of the request's response type, 'E' ERROR_MESSAGE, 'X' drop the connection, 'P' half a frame then drop
+	payload []byte
+}
+
 type c01Reader struct {
 	ln      net.Listener
 	mu      sync.Mutex // guards everything below and serialises writes
 	conn    net.Conn
-	replies map[uint16][][]byte // request type -> payloads of the next replies
+	replies map[uint16][]c01Reply // request type -> the next answers
+	conns   int
 	seen    map[uint16]int
 }
 
@@ -79,7 +89,7 @@ func newC01Reader(t *testing.T) *c01Reader {
 	if err != nil {
 		t.Fatal(err)
 	}
-	r := &c01Reader{ln: ln, replies: map[uint16][][]byte{}, seen: map[uint16]int{}}
+	r := &c01Reader{ln: ln, replies: map[uint16][]c01Reply{}, seen: map[uint16]int{}}
 	go func() {
 		for {
 			conn, err := ln.Accept()
@@ -88,6 +98,7 @@ func newC01Reader(t *testing.T) *c01Reader {
 			}
 			r.mu.Lock()
 			r.conn = conn
+			r.conns++
 			r.mu.Unlock()
 			go r.serve(conn)
 		}
@@ -122,7 +133,7 @@ func (r *c01Reader) serve(conn net.Conn) {
 		}
 		r.mu.Lock()
 		r.seen[typ]++
-		var scripted []byte
+		var scripted c01Reply
 		have := false
 		if q := r.replies[typ]; len(q) > 0 {
 			scripted, have = q[0], true
@@ -131,8 +142,16 @@ func (r *c01Reader) serve(conn net.Conn) {
 		r.mu.Unlock()
 		var err error
 		switch {
+		case have && scripted.kind == 'X':
+			return
+		case have && scripted.kind == 'P':
+			fr := c01Frame(ver, typ+10, id, scripted.payload)
+			_ = r.write(conn, fr[:len(fr)/2])
+			return
+		case have && scripted.kind == 'E':
+			err = r.write(conn, c01Frame(ver, 100, id, scripted.payload))
 		case have:
-			err = r.write(conn, c01Frame(ver, typ+10, id, scripted))
+			err = r.write(conn, c01Frame(ver, typ+10, id, scripted.payload))
 		case typ == 46: // GetSupportedVersion -> current 1.0.1, max 1.0.1
 			err = r.write(conn, c01Frame(ver, 56, id, append([]byte{1, 1}, c01StatusOK...)))
 		case typ == 47:
@@ -255,27 +274,64 @@ func TestVerifC01Driver(t *testing.T) {
 			return "ok"
 		case "read":
 			reqs := make([]dsModels.CommandRequest, 0, len(f)-1)
-			for _, it := range f[1:] {
+			var firstTyp uint16
+			drops := false
+			for i, it := range f[1:] {
 				kv := strings.SplitN(it, "=", 2)
 				res, ok := resources[kv[0]]
 				if !ok || len(kv) != 2 {
 					return "bad item " + it
 				}
-				payload, err := c01Hex(kv[1])
-				if err != nil {
-					return "bad hex"
+				if i == 0 {
+					firstTyp = res.typ
 				}
-				rd.mu.Lock()
-				rd.replies[res.typ] = append(rd.replies[res.typ], payload)
-				rd.mu.Unlock()
+				for _, at := range strings.Split(kv[1], "/") {
+					rp := c01Reply{}
+					if at != "" && (at[0] == 'E' || at[0] == 'X' || at[0] == 'P') {
+						rp.kind, at = at[0], at[1:]
+						if at == "" {
+							at = "-"
+						}
+					}
+					payload, err := c01Hex(at)
+					if err != nil {
+						return "bad hex"
+					}
+					rp.payload = payload
+					drops = drops || rp.kind == 'X' || rp.kind == 'P'
+					rd.mu.Lock()
+					rd.replies[res.typ] = append(rd.replies[res.typ], rp)
+					rd.mu.Unlock()
+				}
 				reqs = append(reqs, dsModels.CommandRequest{DeviceResourceName: res.name, Type: common.ValueTypeObject})
 			}
+			rd.mu.Lock()
+			seen0, conns0, cfg0 := rd.seen[firstTyp], rd.conns, rd.seen[3]
+			rd.mu.Unlock()
 			vals, err := d.HandleReadCommands(devName, proto, reqs)
 			rd.mu.Lock()
-			rd.replies = map[uint16][][]byte{} // a failed call leaves nothing behind for the next one
+			rd.replies = map[uint16][]c01Reply{} // a failed call leaves nothing behind for the next one
+			n := " n=" + strconv.Itoa(rd.seen[firstTyp]-seen0)
 			rd.mu.Unlock()
+			if drops {
+				// the Reader dropped the connection: the device dials again; its new connection event is a reading of its own and its
+				// configuration exchange must be over before the script goes on
+				deadline := time.Now().Add(20 * time.Second)
+				for time.Now().Before(deadline) {
+					rd.mu.Lock()
+					again := rd.conns > conns0
+					rd.mu.Unlock()
+					if again {
+						break
+					}
+					time.Sleep(2 * time.Millisecond)
+				}
+				if !waitSeen(3, cfg0+1) || nextAsync(10*time.Second) == nil {
+					return "err " + hex.EncodeToString([]byte("the device did not come back after the Reader dropped the connection")) + n
+				}
+			}
 			if err != nil {
-				return "err " + hex.EncodeToString([]byte(err.Error()))
+				return "err " + hex.EncodeToString([]byte(err.Error())) + n
 			}
 			if len(vals) != len(reqs) {
 				return "err " + hex.EncodeToString([]byte(fmt.Sprintf("%d values for %d requests", len(vals), len(reqs))))
@@ -289,7 +345,7 @@ func TestVerifC01Driver(t *testing.T) {
 				readings = append(readings, cv)
 				sb.WriteString(" " + strconv.Itoa(len(readings)-1) + ":" + c01Show(cv))
 			}
-			return sb.String()
+			return sb.String() + n
 		case "report":
 			if len(f) != 3 {
 				return "bad report needs <type> <hex>"
@@ -349,6 +405,9 @@ func TestVerifC01Driver(t *testing.T) {
 //   fresh        allocated in this activation of the enclosing function (and inside the loop the decode is in): &T{..}, new(T), T{..},
 //                var x T, or a field of such a value; decoded into at most once (or in exclusive branches)
 //   passthrough  a parameter of the enclosing function (the obligation moves to its callers, which are scanned too)
+//   repeated     a parameter, but the decode sits in a loop or in a closure handed to someone else (a retry helper): the same value may
+//                be decoded into more than once; whether it is depends on WHEN the code repeats (after a failure that happened before
+//                or after the decode), which is not syntactic: the driver-level scripts must exercise the repetition
 //   retained     anything else: package variable, field of a receiver/parameter, map or slice element, result of a call, variable
 //                captured from an enclosing function, variable declared outside the loop, a second decode into the same variable
 // Syntactic, by name (go/parser with its object resolution, no type checker); the request names the root directory.
@@ -489,6 +548,23 @@ func (s *c01Scan) classify(e ast.Expr, stack []ast.Node, depth int) (verdict, re
 				}
 				if _, isLit := fn.(*ast.FuncLit); isLit {
 					return "passthrough", "parameter of an anonymous function", nil
+				}
+				// between the decode and the function whose parameter it is: a loop, or a closure that is handed to someone
+				// else (a retry helper, a callback) and may run any number of times -> possibly several decodes into ONE value
+				for i := len(stack) - 1; i >= 0 && stack[i] != fn; i-- {
+					switch n := stack[i].(type) {
+					case *ast.ForStmt, *ast.RangeStmt:
+						return "repeated", "parameter " + root.Name + " is decoded into inside a loop: possibly more than once per allocation", root.Obj
+					case *ast.FuncLit:
+						if c, ok := stack[i-1].(*ast.CallExpr); ok && c.Fun == ast.Expr(n) {
+							continue
+						}
+						by := "a closure that may run more than once"
+						if c, ok := stack[i-1].(*ast.CallExpr); ok {
+							by = "a closure handed to " + c01ExprString(s.fset, c.Fun)
+						}
+						return "repeated", "parameter " + root.Name + " is decoded into inside " + by + ": possibly more than once per allocation", root.Obj
+					}
 				}
 				return "passthrough", "parameter " + root.Name, root.Obj
 			}
@@ -723,7 +799,7 @@ func c01ScanTree(root string) ([]string, error) {
 						break
 					}
 				}
-				if verdict == "passthrough" && fd != nil {
+				if (verdict == "passthrough" || verdict == "repeated") && fd != nil {
 					key := c01SinkKey{fd.Name.Name, fd.Recv != nil, -1}
 					if param != nil {
 						key.arg = paramIndex(fd, param)
